@@ -719,7 +719,7 @@ func twoByteRune(t *rapid.T) rune {
 	return rune(rapid.SampledFrom([]int{0xB5, 0xF5, 0x135, 0x175, 0xB7, 0xFF, 0xDF}).Draw(t, "mbspecial"))
 }
 
-var nameDict = []string{"7", "0001", "x_0001", "end", "END", "matrix", "data", "gap", "clustal", "CLUSTAL", "stockholm", "taxa", "begin", "a.b|c", "tenletters", "elevenchars"}
+var nameDict = []string{"7", "0001", "x_0001", "end", "END", "matrix", "data", "gap", "clustal", "CLUSTAL", "stockholm", "taxa", "begin", "a.b|c", "tenletters", "elevenchars", "'", "'q'", "\"", "(x)", "{", "a:b", "q'"}
 
 // collisionPool: names that meet the suffix the duplicate-name policy appends (x, x_0001, ...)
 var collisionPool = []string{"a", "a_0001", "a_0002", "a", "b", "b_0001"}
@@ -1055,7 +1055,10 @@ func validFile(t *rapid.T, family string, strict bool) (data []byte, declaredLen
 }
 
 var hostile = []string{
-	"[", "]", ";", "=", "#", "//", ">", ",", "-", "/", ".", "*", "?", "\r\n", "\r", "\t", " ", "\n", "\n\n", "\x00",
+	"[", "]", ";", "=", "#", "//", ">", ",", "-", "/", ".", "*", "?",
+	// the rest of the punctuation of the Nexus standard, alone and as quoting of a word
+	"'", "\"", "''", "'q'", "'q r'", "\"q\"", "(", ")", "{", "}", ":", "\\", "<", "+", "~", "`", "|", "&", "_",
+	"\r\n", "\r", "\t", " ", "\n", "\n\n", "\x00",
 	"0", "-1", "007", "+3", "1", "2", "9223372036854775807", "9223372036854775808", "18446744073709551616", "99999999999999999999", "1000000000000",
 	"é", "日本", "\xff", "\xc3", "elevenchars", "tenletters",
 	"#NEXUS", "BEGIN", "begin", "END;", "end;", "END", "MATRIX", "matrix", "DATA", "TAXA", "TAXLABELS", "DIMENSIONS", "NTAX=", "NCHAR=", "ntax=3", "nchar=5", "FORMAT", "DATATYPE=", "GAP=", "MISSING=", "MATCHCHAR=", "INTERLEAVE", "TREES", "CHARACTERS", "SYMBOLS=", "EQUATE=",
